@@ -538,6 +538,28 @@ def run_batch(prop, tier, nruns=None, budget_s=None, workers=None, profile=None,
     seen = set()
     n_new = 0
     n_known = 0
+    # ---- every recorded finding of this property is re-examined through its committed replay,
+    #      so that it is reported on every run whether or not the sampled batch reaches it
+    for k in known.get("findings", []):
+        if k["property"] != prop or not k.get("replay"):
+            continue
+        rp = os.path.join(VERIF, k["replay"])
+        p = subprocess.run([sys.executable, os.path.join(VERIF, "run_check.py"), prop, "--replay", rp, "--quiet"],
+                           env=dict(os.environ, PYTHONWARNINGS="ignore"), capture_output=True, text=True, timeout=600)
+        first = p.stdout.splitlines()[0] if p.stdout else ""
+        if first.startswith("REPLAY passed"):
+            lines.append(f"NOTE: recorded finding {k['id']} no longer reproduces from {k['replay']}")
+            continue
+        if f"oracle={k['oracle']} " in first and (("cls" not in k) or f"class={k['cls']} " in first):
+            seen.add(("K", k["id"]))
+            n_known += 1
+            lines.append(f"KNOWN-FINDING: property={prop} {k['what']} (id={k['id']} replay={k['replay']})")
+        else:
+            # the committed replay now fails in another way: that is a new violation
+            status = 1
+            n_new += 1
+            lines.append(f"VIOLATION property={prop} replay={rp}")
+            lines.append(f"  the replay of recorded finding {k['id']} now fails differently: {first}")
     verified = set()
     for v in sorted(violations, key=lambda v: v["seed"]):
         key = (v["violation"]["oracle"], v["violation"]["cls"])
